@@ -87,6 +87,32 @@ func emitCorpus(dir string) {
 		cl.Expr, cl.Intended = str("9010-9015"), [][2]uint64{{9010, 9015}}
 		round("13_fixed_range_end_round.json", &node{Name: "root", Children: []*node{leaf("t0", nil, cl)}}, agent("h1", full, 1000, nil))
 	}
+	// seeded C05-1: MergeParent must not write into the parent it is given (the class's own list)
+	es = append(es, entry{"14_mergeparent_keeps_parent.json", "mergeparent", pureIn{
+		Own:    []cst{{A: "zone", V: "z2"}, {A: "rack", V: "r1"}},
+		Parent: []cst{{A: "kind", V: "flp"}, {A: "zone", V: "z1"}}}})
+	// ... one class loaded by two task roles: t0 overrides the template's zone=z1 with z2, t1 does not
+	{
+		cl := direct
+		cl.Cts = []cst{{A: "zone", V: "z1"}}
+		shared := func(name string, cts []cst) *node {
+			n := leaf(name, cts, cl)
+			n.ClassKey = "s0"
+			return n
+		}
+		two := func() *node {
+			return &node{Name: "root", Children: []*node{shared("t0", []cst{{A: "zone", V: "z2"}}), shared("t1", nil)}}
+		}
+		a1 := agent("h1", full, 4000, map[string]string{"zone": "z1"})
+		a2 := agent("h2", full, 4000, map[string]string{"zone": "z2"})
+		es = append(es, entry{"15_shared_class_descriptors.json", "desc", simIn{Mode: "desc", Tree: two()}})
+		round("16_shared_class_round.json", two(), a1, a2)
+		// ... and over two rounds on one core: first only the overriding role, then only the plain one
+		es = append(es, entry{"17_shared_class_two_rounds.json", "round", simIn{Mode: "round",
+			Tree:    &node{Name: "root", Children: []*node{shared("t1", nil)}},
+			Agents:  []agentSpec{a2},
+			Prelude: &simIn{Mode: "round", Tree: &node{Name: "root", Children: []*node{shared("t0", []cst{{A: "zone", V: "z2"}})}}, Agents: []agentSpec{a2}}}})
+	}
 	for _, e := range es {
 		doc := map[string]interface{}{"property": "C05", "cases": []map[string]interface{}{{"kind": e.kind, "input": e.in}}}
 		b, _ := json.MarshalIndent(doc, "", " ")
